@@ -239,6 +239,16 @@ def evaluate(asm, lines, idx=0, seeds=None):
         lt = lines[el - 1].text if el and el <= len(lines) else None
         out['problems'].append(('C12', 'assembles without -c but with -c fails ({} at line {}: {!r})'.format(
             res[True].exc, el, lt.strip() if lt else None), lt))
+    if res[False].status != 'ok':
+        # the program is refused even without -c: a pseudo-instruction with literal operands (li with any value, mv, not,
+        # ..., nop, ret) is never a reason - every one of them must assemble on its own
+        for i, ln in enumerate(lines, 1):
+            if ln.kind in ('li', 'unary', 'p0', 'pjr'):
+                one = progs.assemble_chunks(asm, ln.text + '\n', False)
+                if one.status != 'ok':
+                    out['problems'].append(('C05', 'line {} {!r} is refused ({}: {}) although every operand of it is documented'.format(
+                        i, ln.text.strip(), one.status, str(one.exc)[:120]), ln.text))
+                    break
     if res[False].status != 'ok' or res[True].status != 'ok':
         return out
     lay = {c: oracle.Layout(lines, res[c]) for c in (False, True)}
